@@ -185,7 +185,12 @@ class Requests(Part):
                 if len(sur.x_data) != len(sur.y_data):
                     ev["pair_ok"] = False
                 elif len(sur.x_data) == ndata_before + 1:
-                    ev["pair_ok"] = list(sur.x_data[-1]) == list(ind.vector) and list(sur.y_data[-1]) == (state["last_true"] or [])
+                    def aslist(v):
+                        try:
+                            return [float(t) for t in v]
+                        except TypeError:
+                            return [v]
+                    ev["pair_ok"] = aslist(sur.x_data[-1]) == aslist(ind.vector) and aslist(sur.y_data[-1]) == aslist(state["last_true"] or [])
                 elif len(sur.x_data) != ndata_before:
                     ev["pair_ok"] = False
             trace.append(ev)
